@@ -372,7 +372,8 @@ def analyse(obs: Obs, prog):
     keys = ("attr", P("trace"), "subtraces")  # d.keys() / d.items() / d.values() iterate the dictionary: canonical iterable is d itself
     el = ("elem", keys)
     term = ("call", ("attr", ("call", ("attr", P("trace"), "get_subtrace"), (el,), ()), "project"), (P("key"), ("call", P("selection"), (el,), ())), ())
-    okp = is_t(r.ret, "bin") and r.ret[1] == "+" and is_zero(r.ret[2]) and r.ret[3] == ("sumover", keys, term)
+    term2 = ("call", ("attr", ("index", keys, el), "project"), (P("key"), ("call", P("selection"), (el,), ())), ())  # trace.subtraces[addr] (items())
+    okp = is_t(r.ret, "bin") and r.ret[1] == "+" and is_zero(r.ret[2]) and r.ret[3] in (("sumover", keys, term), ("sumover", keys, term2))
     obs.add({"C10"}, "WEIGHT-PROJ", "Static.project", okp, derived=r.ret, expected="sum over ALL trace.subtraces addresses of subtrace(addr).project(key, selection(addr))", where=w)
     # the three edits
     EDITS = {
@@ -412,12 +413,23 @@ def analyse(obs: Obs, prog):
         bfld = "bwd_constraints" if kind == "update" else "bwd_requests"
         tkeys = call0(mk_proj(ys, lay.get("traces", 99)), "keys")
         bl = mk_proj(ys, lay.get(bfld, 99))
+        TR_ = tkeys[1][1]  # the dictionary of recorded subtraces: iterating it, or its .keys(), gives the visited addresses in order
+
+        def pairing(t, as_dict):
+            """t pairs the visited addresses with the per-site list, in order: zip(traces[.keys()], lst) as a value, dict(zip(..)), or the comprehension over that zip"""
+            ks = (TR_, tkeys)
+            if not as_dict:
+                if is_t(t, "call") and t[1] == G("zip") and len(t[2]) == 2 and t[2][0] in ks and t[2][1] == bl and not t[3]:
+                    return True
+                return is_t(t, "fam") and is_t(t[1], "zip") and t[1][1] == (TR_, bl) and t[2] == ("tuple", (("elem", TR_), ("elem", bl)))
+            if is_t(t, "call") and t[1] == G("dict") and len(t[2]) == 1 and not t[3]:
+                return pairing(t[2][0], False)
+            return is_t(t, "dictfam") and is_t(t[1], "zip") and t[1][1] == (TR_, bl) and t[2:] == (("elem", TR_), ("elem", bl))
         if kind == "update":
-            okb = bwd == ("ctor", "Update", (("call", ("attr", G("genjax._src.core.generative.choice_map.ChoiceMap"), "from_mapping"), (("zip", (tkeys, bl)) if False else ("call", G("zip"), (tkeys, bl), ()),), ()),), ())
-            okb = okb or (is_t(bwd, "ctor") and bwd[1] == "Update" and is_call(bwd[2][0], "from_mapping") and bwd[2][0][2] == (("call", G("zip"), (tkeys, bl), ()),))
+            okb = is_t(bwd, "ctor") and bwd[1] == "Update" and is_call(bwd[2][0], "from_mapping") and len(bwd[2][0][2]) == 1 and pairing(bwd[2][0][2][0], False)
             exp = "Update(ChoiceMap.from_mapping(zip(visited addresses, per-site backward constraints)))"
         else:
-            okb = is_t(bwd, "ctor") and bwd[1] == "StaticRequest" and bwd[2] == (("call", G("dict"), (("call", G("zip"), (tkeys, bl), ()),), ()),)
+            okb = is_t(bwd, "ctor") and bwd[1] == "StaticRequest" and len(bwd[2]) == 1 and pairing(bwd[2][0], True)
             exp = "StaticRequest(dict(zip(visited addresses, per-site backward requests)))"
         obs.add({"C06"} | props, "BWD-OLDVALUES", inst + "/bwd", okb, derived=bwd, expected=exp, where=w)
         obs.add({"C06"}, "BWD-CLOSED", inst, is_t(bwd, "ctor") and bwd[1] in ("Update", "StaticRequest"), derived=bwd[1] if is_t(bwd, "ctor") else show(bwd)[:80], expected="a request class StaticGenerativeFunction.edit accepts", where=w)
